@@ -3,6 +3,7 @@
 #include "plan.hpp"
 #include <set>
 #include <map>
+#include <cstdio>
 
 namespace exec
 {
@@ -42,6 +43,7 @@ struct RunResult
 
 extern bool g_record;
 extern bool g_trace_ops;
+extern FILE *g_trace_file; // where the per-op trace lines of replay mode go (the worker protocol stream)
 RunResult run_plan(const plan::Plan &p, uint64_t garbage_salt = 0);
 // run_plan, and for plans with garbage_differential a second execution under different garbage fills
 // whose per-op outputs must be identical (uninitialised-read oracle)
